@@ -111,6 +111,8 @@ def check_level2(case: dict):
     key = hashlib.sha256(b"c04 key").digest()
     token = hashlib.sha512(b"c04 tok").digest()
     frames = [bytes.fromhex(f) for f in case["frames"]]
+    # the frame that answers the second send must be distinguishable from every generated frame
+    MARK = next(m for m in (b"\xaa\x55MARK", b"\xaa\x55MARK1", b"\xaa\x55MARK2", b"\xaa\x55MARK3", b"\xaa\x55MARK4") if m not in frames)
     net = vloop.Net()
     out = {}
 
